@@ -134,6 +134,24 @@ def add_special_ops(rng, spec, what):
   return dict(spec, root=(node[0], node[1], tuple(ops)))
 
 
+def alias_sow_names(rng, node):
+  """Rename some sow ops so that they observe under the name of a param / counter / statistic of the SAME module (another
+  collection): legal in Linen, and switching the observation on must still not change anything else."""
+  ops = list(node[2])
+  names = [op[1] for op in ops if op[0] == 'param'] + [op[2] for op in ops if op[0] in ('counter', 'stat')]
+  used = set()
+  for k, op in enumerate(ops):
+    if op[0] == 'sow' and names and rng.random() < 0.6:
+      cand = [n for n in names if (op[1], n) not in used]
+      if cand:
+        n = rng.choice(cand)
+        used.add((op[1], n))
+        ops[k] = ('sow', op[1], n)
+    elif op[0] in ('child', 'shared'):
+      ops[k] = op[:2] + (alias_sow_names(rng, op[2]),) + op[3:]
+  return (node[0], node[1], tuple(ops))
+
+
 def strip_observers(node):
   ops = []
   for op in node[2]:
@@ -160,6 +178,9 @@ def run_case(ctx, i, rng, log):
   special = rng.choice([None, None, None, 'bad_write', 'leak'])
   if special:
     spec = add_special_ops(rng, spec, special)
+  r_alias = __import__('random').Random(rng.getrandbits(32))
+  if 'sow' in LP.ops_used(spec['root']) and r_alias.random() < 0.5:
+    spec = dict(spec, root=alias_sow_names(r_alias, spec['root']))
   fname, mutable, ref_pred = rng.choice(filters())
   how = rng.choice(['dict', 'frozen', 'mixed'])
   return_frozen = rng.random() < 0.3
